@@ -689,10 +689,21 @@ use crate::gen::{self, GenCfg};
 use crate::model::{Advert, LevelSpec, Pay, Shape};
 use proptest::prelude::*;
 
+/// High-volume checks in which the container format of a leaf is incidental keep only every
+/// n-th MBTiles leaf (the others become in-memory sources): every MBTiles reader of the code
+/// under test leaves pool threads behind for up to 30 s, which bounds the rate of such cases
+/// (see `util::throttle_threads`). Set once at the start of a check's `main`.
+pub static MBTILES_THINNING: std::sync::atomic::AtomicU32 = std::sync::atomic::AtomicU32::new(1);
+
+fn mbtiles_thinned(t: Target, seed: u32) -> bool {
+	let n = MBTILES_THINNING.load(std::sync::atomic::Ordering::Relaxed);
+	t == Target::Mbtiles && n > 1 && (seed >> 3) % n != 0
+}
+
 pub fn leaf_kind(pairs_ok: impl Fn(Target) -> bool + 'static) -> impl Strategy<Value = LeafKind> {
 	(0usize..12, any::<u32>(), any::<bool>()).prop_map(move |(k, seed, ds)| {
 		let t = Target::ALL[k % 5];
-		if k >= 10 || !pairs_ok(t) {
+		if k >= 10 || !pairs_ok(t) || mbtiles_thinned(t, seed) {
 			LeafKind::Mem(ds)
 		} else if k < 5 {
 			LeafKind::Repo(t)
@@ -823,7 +834,7 @@ pub fn overlay_leaves(force_format: Option<Fmt>) -> impl Strategy<Value = Vec<Le
 				let comp = Comp::ALL[csel];
 				let kind = {
 					let t = Target::ALL[ksel % 5];
-					if ksel >= 10 || !t.accepts(format, comp) {
+					if ksel >= 10 || !t.accepts(format, comp) || mbtiles_thinned(t, lseed) {
 						LeafKind::Mem(ds)
 					} else if ksel < 5 {
 						LeafKind::Repo(t)
